@@ -1,0 +1,16 @@
+//go:build verif
+
+package rtsp
+
+import "net"
+
+// VerifOnReadRtpPacket hands one datagram to the callback that nazanet.UdpConnection.RunLoop calls for the
+// RTP sockets of this session (the verification harness delivers datagrams synchronously).
+func (session *BaseInSession) VerifOnReadRtpPacket(b []byte, rAddr *net.UDPAddr) {
+	session.onReadRtpPacket(b, rAddr, nil)
+}
+
+// VerifOnReadRtcpPacket is the same for the RTCP sockets.
+func (session *BaseInSession) VerifOnReadRtcpPacket(b []byte, rAddr *net.UDPAddr) {
+	session.onReadRtcpPacket(b, rAddr, nil)
+}
